@@ -4,7 +4,8 @@ From Verif Require Import Base Dispatch DispatchVM DispatchPoly DispatchTorch Di
   DispatchCli
   DispatchInject
   DispatchLoader
-  DispatchConst.
+  DispatchConst
+  DispatchPyEval.
 Import ListNotations.
 Open Scope string_scope.
 
@@ -15,7 +16,8 @@ Definition handlers : list (string -> list sexp -> option string) :=
    handle_cli;
    handle_inject;
    handle_loader;
-   handle_const].
+   handle_const;
+   handle_pyeval].
 
 Fixpoint first_some (hs : list (string -> list sexp -> option string)) (cmd : string)
          (args : list sexp) : option string :=
